@@ -14,21 +14,25 @@ def run(ctx):
         "lower layer taken as an interface (property C13): a subscriber receives every change exactly once, in order, synchronously inside the writer's call; one model step = one API call run to completion",
         "interleaving models (WaitGroup Add/Done atomic steps, DerivedVariable2 writer steps DVI, SortedSet lock skeleton) are hand abstractions of the Go code; the free-running runs and the directed schedules exercise the real code; DVI is additionally tied to the code by the forced schedules of `sched` (final state per schedule)",
         "hook a2d37bb (tag verif): WaitGroup.Add yields between the duplicate check and the counter correction",
+        "re-entrant handlers of an EvictionState: stack-machine model EVR (ModelEVR.v; one step = one critical section of e.mutex or one Event.Trigger), a hand abstraction tied to the code by the lockstep replay of the re-entrant scenarios (case CEVR: LastEvictedSlot, triggered flag of every handed-out event and the handlers' log after every top-level call)",
     ])
     if thorough:
         for k in range(4):
             ctx.seed += 1000
             ctx.corr(hx, ["lock", "--n", "150", "--len", "40"], cases_name="cases%d.v" % k)
         ctx.seed -= 4000
+        ctx.corr(hx, ["reent", "--n", "400"], cases_name="reent.v")
         ctx.corr(hx, ["conc", "--runs", "1500"], cases_name="conc.v", timeout=1500)
         ctx.corr(hx, ["sched", "--n", "4000"], cases_name="sched.v")
-        ctx.corr(hx, ["reent", "--n", "400"], cases_name="reent.v")
     else:
         ctx.corr(hx, ["lock", "--n", "70", "--len", "30"])
+        ctx.corr(hx, ["reent", "--n", "40"], cases_name="reent.v", timeout=300)
         ctx.corr(hx, ["conc", "--runs", "150"], cases_name="conc.v")
-        ctx.corr(hx, ["sched", "--n", "400"], cases_name="sched.v")
-        ctx.corr(hx, ["reent", "--n", "40"], cases_name="reent.v")
+        # sched holds writers at callback boundaries and has no global watchdog of its own: a hang is reported by the
+        # harness timeout (normal run time 2 s)
+        ctx.corr(hx, ["sched", "--n", "400"], cases_name="sched.v", timeout=240)
     ctx.assumptions += [
+        "re-entrant callbacks (reent): one goroutine, one scripted callback per scenario; demanded are the (callback site, scripted call) pairs that complete on the unchanged code (table reBlocked in harness/cmd/c14/reent.go lists the pairs that park there: they are run once per run as observations); a parked goroutine is recognised by its wait state (sync.Mutex.Lock / sync.RWMutex.RLock ...) observed six times in a row, 20 s watchdog otherwise; for the derived kinds other than EvictionState re-entrant callbacks are judged in Go only (no Coq model of their locks)",
         "model assumption (interface of C13): callbacks of a Variable/Set run synchronously, once per change, in registration order",
         "guards of the theorems: the derived value is not written directly (it is itself a Variable/Set); an unsubscribe function of DerivedSet.InheritFrom is called at most once; compute functions do not depend on the current value; list arguments of set operations are duplicate-free (they are ds.Set values); EvictionState slots are modelled as unbounded N (Evict(max) of the slot type is a directed regression case, fix 2c4b512)",
         "concurrency: free-running runs with <= 4 goroutines and a quiescence barrier, compared with the defining function in Go; every run under a 20 s watchdog; directed schedules for the repaired D14b (blocking subscriber) and D14c (hook)",
